@@ -14,7 +14,7 @@ os.makedirs(out, exist_ok=True)
 for f in glob.glob(os.path.join(out, "*")):
     os.remove(f)
 rep = {}
-files = sorted(glob.glob("/repo/*.go"))
+files = sorted(glob.glob("/repo/*.go")) + sorted(glob.glob("/repo/stdlib/time/*.go")) + sorted(glob.glob("/repo/stdlib/strings/*.go"))
 for src in files:
     if src.endswith("_test.go"):
         continue
